@@ -8,3 +8,4 @@ import Dtr.Props.C05
 #print axioms Dtr.C05_expected_not_expanded
 #print axioms Dtr.C05_get_row_pops
 #print axioms Dtr.C05_closed_form
+#print axioms Dtr.C05_expansion_survives_errors
